@@ -3,6 +3,7 @@ EXTENDS Bounded, TLC, Json
 CONSTANTS Deep, Side
 VARIABLE c
 GInit == c \in {f \in Family(Deep) : f.side = Side} \cup (IF Side = "p21" THEN {[table |-> "degenerate:" \o d, side |-> "p21", n |-> 0] : d \in Degenerate}
+                         \cup {[table |-> "extreme:" \o x.kind \o ":" \o x.text, side |-> "p21", n |-> 0] : x \in ExtremeNumerals}
                          \cup {[table |-> "parts", side |-> "p21", n |-> Len(q), parts |-> q] : q \in PartLists(IF Deep THEN 4 ELSE 2)}
                          ELSE {[table |-> "degenerate:" \o d, side |-> "express", n |-> 0] : d \in DegenerateExpress}) /\ Init
 GNext == UNCHANGED <<c, len>>
